@@ -50,7 +50,68 @@ let parse_range_expr (s : string) : num * num =
   | [a; b] -> (parse_num a, parse_num b)
   | _ -> failwith ("bad range " ^ s)
 
+let rec range_ints a b = if a >= b then [] else a :: range_ints (a + 1) b
+
+(* the impl column of the harness line carries the data the model cannot know (addresses, hash values) *)
+let model_with_oracle (case : string) (impl : string) : string option =
+  let payload () =
+    if String.length impl > 3 && String.sub impl 0 3 = "Ok " then Some (String.sub impl 3 (String.length impl - 3)) else None in
+  match split_on ' ' case with
+  | ["X"; "endlist"; "S"; _; _] ->
+    (match payload () with
+     | None -> None
+     | Some pl ->
+       (match split_on '|' pl with
+        | [items; _] ->
+          let addrs = if items = "" then [] else List.map int_of_string (split_on ',' items) in
+          Some (res_str (fun t -> "Ok " ^ items ^ "|" ^ String.concat "," (List.map (fun x -> string_of_int (int_of_n x)) t))
+                  (simple_end_list (List.map n_of_int addrs)))
+        | _ -> None))
+  | ["X"; "bsearch"; "B"; _; _] ->
+    (match payload () with
+     | None -> None
+     | Some pl ->
+       (match split_on '|' pl with
+        | [cells; sym; _] ->
+          let table = if cells = "" then [] else
+              List.map (fun c -> match split_on ':' c with [s; v] -> (pad16 s, v) | _ -> failwith "cell") (split_on ',' cells) in
+          let arr = Array.of_list table in
+          let key = pad16 sym in
+          let greater (mid : n) : bool = let m = int_of_n mid in m < Array.length arr && fst arr.(m) > key in
+          Some (res_str (fun r ->
+              let found = (match r with
+                  | None -> "none"
+                  | Some b -> let b = int_of_n b in if fst arr.(b) = key then snd arr.(b) else "none") in
+              "Ok " ^ cells ^ "|" ^ sym ^ "|" ^ found)
+              (bsearch (n_of_int (Array.length arr)) greater))
+        | _ -> None))
+  | _ -> None
+
 let model (case : string) : string =
+  match split_on ' ' case with
+  | ["X"; "mklist"; _; n; k] ->
+    let n = int_of_string n and k = int_of_string k in
+    res_str (fun start ->
+        let start = int_of_n start in
+        Printf.sprintf "Ok L%d[%s] regs=%d" n
+          (String.concat "," (List.map (fun i -> Printf.sprintf "i%x" (100 + i)) (take 40 (range_ints start k)))) (start + 1))
+      (make_list_start (n_of_int n) (n_of_int k))
+  | ["X"; "eqregs"; _; k] ->
+    res_str (fun start -> Printf.sprintf "Ok regs=%d" (int_of_n start + 1)) (equality_start (n_of_int (int_of_string k)))
+  | ["X"; "cwin"; "S"; n; s; e] ->
+    let n = int_of_string n in
+    (match parse_num s, parse_num e with
+     | Int zs, Int ze ->
+       res_str (fun (skip, tk) ->
+           (* saturate: a skip or take count beyond the container behaves like the container length *)
+           let clamp (x : n) = match x with N0 -> 0 | _ -> (try let v = int_of_n x in if v > n || v < 0 then n else v with _ -> n) in
+           let big (x : n) = String.length (hex_of_n x) > 8 in
+           let skip = if big skip then n else clamp skip in
+           let tk = if big tk then n else clamp tk in
+           Printf.sprintf "Ok %d" (min tk (n - min skip n) + 1))
+         (simple_concat_slice_window zs ze)
+     | _ -> "NOMODEL")
+  | _ ->
   match split_on ' ' case with
   | ["X"; "usize"; _; x] -> "Ok " ^ hex_of_n (usize_of_num (parse_num x))
   | ["X"; "item"; imp; k; len; idx] ->
@@ -98,5 +159,8 @@ let model (case : string) : string =
 let () =
   iter_lines (fun line ->
     match split_on '\t' line with
+    | case :: impl :: _ ->
+      let m = (try (match model_with_oracle case impl with Some m -> m | None -> model case) with Failure m -> "DRIVERERROR:" ^ m) in
+      Printf.printf "%s\t%s\t-\n" case m
     | case :: _ -> Printf.printf "%s\t%s\t-\n" case (try model case with Failure m -> "DRIVERERROR:" ^ m)
     | _ -> failwith ("bad line " ^ line))
